@@ -126,6 +126,30 @@ func (i *interpreter) initPackage(pkg *ssa.Package) {
 	callSSA(i, nil, token.NoPos, init, nil, nil)
 }
 
+// tolerantCall runs a call made directly by a package initializer; a call the
+// engine cannot execute yields poison and initialization continues.
+func (i *interpreter) tolerantCall(fr *frame, instr *ssa.Call, fn value, args []value) (res value) {
+	savedCur, savedDepth := i.cur, i.depth
+	defer func() {
+		if r := recover(); r != nil {
+			if pe, ok := r.(pathEnd); ok {
+				panic(pe)
+			}
+			i.cur, i.depth = savedCur, savedDepth
+			i.lastStack = nil
+			res = poison{fmt.Sprintf("%v", r)}
+			if t, ok := instr.Type().(*types.Tuple); ok && t.Len() > 1 {
+				tup := make(tuple, t.Len())
+				for k := range tup {
+					tup[k] = res
+				}
+				res = tup
+			}
+		}
+	}()
+	return call(i, fr, instr.Pos(), fn, args)
+}
+
 // poison is the result of a call that could not be executed during package
 // initialization. Using it later is unsupported (inconclusive).
 type poison struct{ why string }
@@ -241,7 +265,11 @@ func visitInstr(fr *frame, instr ssa.Instruction) continuation {
 
 	case *ssa.Call:
 		fn, args := prepareCall(fr, &instr.Call)
-		fr.env[instr] = call(fr.i, fr, instr.Pos(), fn, args)
+		if i.initDepth > 0 && (fr.fn.Synthetic == "package initializer" || strings.HasPrefix(fr.fn.Name(), "init#")) {
+			fr.env[instr] = i.tolerantCall(fr, instr, fn, args)
+		} else {
+			fr.env[instr] = call(fr.i, fr, instr.Pos(), fn, args)
+		}
 
 	case *ssa.ChangeInterface:
 		fr.env[instr] = fr.get(instr.X)
@@ -438,6 +466,7 @@ func visitInstr(fr *frame, instr ssa.Instruction) continuation {
 		case array:
 			fr.env[instr] = x[i.index(instr.Pos(), idx, len(x))]
 		case string:
+			i.inspectStr(x)
 			fr.env[instr] = x[i.index(instr.Pos(), idx, len(x))]
 		default:
 			panic(fmt.Sprintf("unexpected x type in Index: %T", x))
